@@ -52,6 +52,10 @@ type driveOpts struct {
 	rawServer func(conn net.Conn)
 	deadline  time.Duration
 	writes    bool // the client also writes application data before and after its Reads
+	// scriptFn, if set, builds a fresh script (and whatever state its hooks close over) for every attempt; otherwise a
+	// re-measurement uses a copy of script with an empty trace (only sound for scripts whose hooks keep no state)
+	scriptFn  func() *tls.VerifServerScript
+	keepCache bool // re-measurements keep ccfg's ClientSessionCache (histories); otherwise each attempt gets an empty one
 }
 
 type driveResult struct {
@@ -62,13 +66,59 @@ type driveResult struct {
 	hsErr     error
 	readErr   error
 	readBytes int
-	alloc     uint64
+	alloc     uint64   // TotalAlloc delta of the attempt reported (the smallest one when the case was re-measured)
+	allocs    []uint64 // the deltas of all attempts, in order
 	elapsed   time.Duration
 	srvErr    error
 	srvPanic  string
 }
 
+// drive runs one case. runtime.MemStats.TotalAlloc is process-wide: the delta of one attempt also contains whatever the in-process
+// scripted server, the garbage collector's helpers or a goroutine left over from an earlier case allocated meanwhile. The runner
+// is strictly serial (one connection at a time, compressed payloads prepared ahead of time), and a delta above the limit is never
+// trusted on its own: the case is run again, up to three attempts, each after runtime.GC() and a pause that lets stragglers finish,
+// and the SMALLEST delta is what the oracle sees - an allocation the client really makes is made on every attempt.
 func drive(o driveOpts) *driveResult {
+	var best *driveResult
+	var all []uint64
+	for attempt := 0; attempt < 3; attempt++ {
+		oo := o
+		if o.scriptFn != nil {
+			oo.script = o.scriptFn()
+		} else if attempt > 0 && o.script != nil {
+			cp := *o.script
+			cp.Trace = tls.VerifServerTrace{}
+			oo.script = &cp
+		}
+		if attempt > 0 {
+			if o.ccfg != nil && !o.keepCache {
+				cc := o.ccfg.Clone()
+				if cc.ClientSessionCache != nil {
+					cc.ClientSessionCache = tls.NewLRUClientSessionCache(4)
+				}
+				oo.ccfg = cc
+			}
+			time.Sleep(50 * time.Millisecond)
+		}
+		runtime.GC()
+		r := driveOnce(oo)
+		all = append(all, r.alloc)
+		if r.buildErr != nil || r.panicked || r.hung {
+			best = r
+			break
+		}
+		if best == nil || r.alloc < best.alloc {
+			best = r
+		}
+		if r.alloc <= allocLimit {
+			break
+		}
+	}
+	best.allocs = all
+	return best
+}
+
+func driveOnce(o driveOpts) *driveResult {
 	res := &driveResult{}
 	if o.deadline == 0 {
 		o.deadline = 3 * time.Second
@@ -345,14 +395,20 @@ func judgeKey(c *vh.Ctx, r *driveResult, key, countAs string, input any) {
 		c.Extra["max_elapsed_ms"] = r.elapsed.Milliseconds()
 		c.Extra["max_elapsed_case"] = key
 	}
-	outcome := map[string]any{"handshake_err": fmt.Sprint(r.hsErr), "read_err": fmt.Sprint(r.readErr), "elapsed_ms": r.elapsed.Milliseconds(), "alloc_bytes": r.alloc}
+	if len(r.allocs) > 1 {
+		c.Count("alloc-remeasured")
+		if r.alloc <= allocLimit {
+			c.Count("alloc-remeasured-then-within-limit")
+		}
+	}
+	outcome := map[string]any{"handshake_err": fmt.Sprint(r.hsErr), "read_err": fmt.Sprint(r.readErr), "elapsed_ms": r.elapsed.Milliseconds(), "alloc_bytes": r.alloc, "alloc_bytes_all_attempts": r.allocs}
 	switch {
 	case r.panicked:
 		c.Fail("panic/"+key, "the client panicked on hostile server input: "+firstLine(r.panicVal), input, r.panicVal, "Handshake/Read return normally")
 	case r.hung:
 		c.Fail("hang/"+key, "client Handshake/Read/Write did not return within 2 s after the connection deadline", input, outcome, "returns within the deadline")
 	case r.alloc > allocLimit:
-		c.Fail("alloc/"+key, fmt.Sprintf("one client handshake allocated %d bytes (limit %d)", r.alloc, allocLimit), input, outcome, "allocation within the protocol's length limits")
+		c.Fail("alloc/"+key, fmt.Sprintf("one client handshake allocated %d bytes on each of %d serial attempts (smallest delta; limit %d)", r.alloc, len(r.allocs), allocLimit), input, outcome, "allocation within the protocol's length limits")
 	}
 	switch {
 	case r.hsErr == nil:
@@ -410,11 +466,13 @@ func scenarios() []scenario {
 				return false
 			}
 			s.CertCompression = p.ccAlgs[0]
-			if z, ok := p.ccert[s.CertCompression]; ok {
-				s.CompressedCert = z
-				n := uint32(len(p.certBody))
-				s.CompressedCertULen = &n
+			z, ok := p.ccert[s.CertCompression]
+			if !ok {
+				return false // never let the in-process server run an encoder inside a measured window
 			}
+			s.CompressedCert = z
+			n := uint32(len(p.certBody))
+			s.CompressedCertULen = &n
 			return p.usable13
 		}},
 		{"tls13-alps", []uint8{8}, func(scfg *tls.Config, s *tls.VerifServerScript, p *parrotInfo) bool {
@@ -554,9 +612,17 @@ func run(c *vh.Ctx) {
 					occ, msgName = 1, "ServerHello-after-HRR"
 				}
 			}
-			m := &mutator{kind: kind, target: target, occ: occ, rng: rand.New(rand.NewSource(c.Rng.Int63()))}
-			script.MutateHandshakeMsg = m.fn
-			r := drive(driveOpts{id: p.ID, spec: specOf(p), ccfg: clientCfg(pki, p), scfg: scfg, script: script, deadline: gridDeadline})
+			mseed := c.Rng.Int63()
+			var m *mutator
+			scn := sc
+			r := drive(driveOpts{id: p.ID, spec: specOf(p), ccfg: clientCfg(pki, p), scfg: scfg, deadline: gridDeadline,
+				scriptFn: func() *tls.VerifServerScript {
+					fresh := &tls.VerifServerScript{}
+					scn.setup(scfg, fresh, p)
+					m = &mutator{kind: kind, target: target, occ: occ, rng: rand.New(rand.NewSource(mseed))}
+					fresh.MutateHandshakeMsg = m.fn
+					return fresh
+				}})
 			live++
 			if !m.hit {
 				c.Count("mutation-not-reached/" + sc.name + "/" + msgName)
@@ -779,6 +845,15 @@ func targeted(c *vh.Ctx, pki *hs.PKI, parrots []*parrotInfo, live *int) {
 				s.CertCompression = t.alg
 			}
 			t.setup(s)
+			if s.CompressedCert == nil {
+				// the honest payload, compressed ahead of time: the encoder's memory (zstd: > 20 MB) stays out of the measurement
+				if z, ok := p.ccert[s.CertCompression]; ok {
+					s.CompressedCert = z
+				} else {
+					c.Count("targeted-skipped/no-precompressed-payload")
+					continue
+				}
+			}
 			r := drive(driveOpts{id: p.ID, spec: specOf(p), ccfg: clientCfg(pki, p), scfg: pki.ServerConfig("h2"), script: s})
 			*live++
 			judge(c, r, t.mutation, t.message, map[string]any{"parrot": p.Name, "scenario": "targeted", "algorithm": s.CertCompression,
@@ -803,10 +878,13 @@ func targeted(c *vh.Ctx, pki *hs.PKI, parrots []*parrotInfo, live *int) {
 	}
 	for n := 1; n <= 4; n++ {
 		for _, clen := range []int{1, 32, 4000} {
-			s := &tls.VerifServerScript{ForceVersion: tls.VersionTLS13, ForceHRR: true, HRRCookie: bytes.Repeat([]byte{0xc0}, clen)}
+			var s *tls.VerifServerScript
 			var pos = -1
-			s.OnClientHello = nil
-			r := drive(driveOpts{id: tls.HelloCustom, spec: mk(n), ccfg: pki.ClientConfig(), scfg: pki.ServerConfig("h2"), script: s})
+			r := drive(driveOpts{id: tls.HelloCustom, spec: mk(n), ccfg: pki.ClientConfig(), scfg: pki.ServerConfig("h2"),
+				scriptFn: func() *tls.VerifServerScript {
+					s = &tls.VerifServerScript{ForceVersion: tls.VersionTLS13, ForceHRR: true, HRRCookie: bytes.Repeat([]byte{0xc0}, clen)}
+					return s
+				}})
 			*live++
 			if len(s.Trace.ClientHellos) == 2 {
 				if w, err := hs.ParseClientHello(s.Trace.ClientHellos[1]); err == nil {
@@ -852,7 +930,7 @@ func targeted(c *vh.Ctx, pki *hs.PKI, parrots []*parrotInfo, live *int) {
 		ccfg := clientCfg(pki, p)
 		scfg := pki.ServerConfig("h2")
 		scfg.SessionTicketsDisabled = false
-		r1 := drive(driveOpts{id: p.ID, spec: specOf(p), ccfg: ccfg, scfg: scfg, script: &tls.VerifServerScript{}, post: func(sc *tls.Conn) { sc.Write([]byte("x")) }})
+		r1 := drive(driveOpts{id: p.ID, spec: specOf(p), ccfg: ccfg, scfg: scfg, keepCache: true, script: &tls.VerifServerScript{}, post: func(sc *tls.Conn) { sc.Write([]byte("x")) }})
 		*live++
 		judge(c, r1, "none", "resumption-first", map[string]any{"parrot": p.Name})
 		for _, hrr := range []bool{false, true} {
@@ -860,7 +938,7 @@ func targeted(c *vh.Ctx, pki *hs.PKI, parrots []*parrotInfo, live *int) {
 			if hrr {
 				s.HRRCookie = []byte("again")
 			}
-			r2 := drive(driveOpts{id: p.ID, spec: specOf(p), ccfg: ccfg, scfg: scfg, script: s, post: func(sc *tls.Conn) { sc.Write([]byte("x")) }})
+			r2 := drive(driveOpts{id: p.ID, spec: specOf(p), ccfg: ccfg, scfg: scfg, keepCache: true, script: s, post: func(sc *tls.Conn) { sc.Write([]byte("x")) }})
 			*live++
 			judge(c, r2, fmt.Sprintf("hrr-%v", hrr), "resumption-second", map[string]any{"parrot": p.Name, "hrr": hrr})
 		}
@@ -976,15 +1054,28 @@ func bombs(c *vh.Ctx, pki *hs.PKI, parrots []*parrotInfo, live *int) {
 			input := map[string]any{"algorithm": alg, "declared_uncompressed_length": declared, "inflates_to": sizes[alg], "compressed_len": len(z),
 				"compressed_payload": hexScript([][]byte{z})}
 			// (a) decompressCert directly
-			var m0, m1 runtime.MemStats
-			runtime.ReadMemStats(&m0)
 			var res tls.VerifC21Result
-			ok := guard(c, "decompressCert", mutation, z[:16], func() {
-				res = tls.VerifDecompressCert([]tls.CertCompressionAlgo{tls.CertCompressionAlgo(alg)}, alg, declared, z)
-			})
-			runtime.ReadMemStats(&m1)
+			ok := true
+			d := ^uint64(0)
+			var ds []uint64
+			for attempt := 0; attempt < 3 && ok; attempt++ { // serial re-measurement, smallest delta (see drive)
+				runtime.GC()
+				var m0, m1 runtime.MemStats
+				runtime.ReadMemStats(&m0)
+				ok = guard(c, "decompressCert", mutation, z[:16], func() {
+					res = tls.VerifDecompressCert([]tls.CertCompressionAlgo{tls.CertCompressionAlgo(alg)}, alg, declared, z)
+				})
+				runtime.ReadMemStats(&m1)
+				ds = append(ds, m1.TotalAlloc-m0.TotalAlloc)
+				if ds[len(ds)-1] < d {
+					d = ds[len(ds)-1]
+				}
+				if d <= allocLimit {
+					break
+				}
+			}
+			input["alloc_bytes_all_attempts"] = ds
 			if ok {
-				d := m1.TotalAlloc - m0.TotalAlloc
 				c.Count("runs/decompressCert-bomb")
 				if d > allocLimit {
 					c.Fail("alloc/"+mutation+"/decompressCert", fmt.Sprintf("decompressCert allocated %d bytes (limit %d) for a %d-byte payload declaring %d bytes", d, allocLimit, len(z), declared),
@@ -1111,16 +1202,19 @@ func keyShareLengths(c *vh.Ctx, pki *hs.PKI, parrots []*parrotInfo, live *int) {
 				data := make([]byte, l)
 				c.Rng.Read(data)
 				hit := false
-				s := &tls.VerifServerScript{MutateHandshakeMsg: func(typ uint8, b []byte) []byte {
-					if typ == 2 && !hit {
-						if nb, ok := setServerShare(b, g, data); ok {
-							hit = true
-							return nb
-						}
-					}
-					return b
-				}}
-				r := drive(driveOpts{id: p.ID, spec: specOf(p), ccfg: clientCfg(pki, p), scfg: pki.ServerConfig("h2"), script: s, deadline: gridDeadline})
+				r := drive(driveOpts{id: p.ID, spec: specOf(p), ccfg: clientCfg(pki, p), scfg: pki.ServerConfig("h2"), deadline: gridDeadline,
+					scriptFn: func() *tls.VerifServerScript {
+						done := false
+						return &tls.VerifServerScript{MutateHandshakeMsg: func(typ uint8, b []byte) []byte {
+							if typ == 2 && !done {
+								if nb, ok := setServerShare(b, g, data); ok {
+									done, hit = true, true
+									return nb
+								}
+							}
+							return b
+						}}
+					}})
 				*live++
 				if !hit {
 					c.Count("mutation-not-reached/keyshare")
